@@ -1261,6 +1261,14 @@ async fn run_sig_case(pki: &Pki, c: &SigCase, sink: &Sink<'_>, counters: &Counte
             ok = false;
         }
 
+        // ---- a TCP connection that is accepted now and stays silent: its TLS handshake will only START after the
+        // history ("later handshakes" see the identity then in force, whenever their TCP connection was made). The
+        // full connection behind it shows that the listener has taken the parked one (accepts are FIFO).
+        let mut parked = tokio::net::TcpStream::connect(("127.0.0.1", port)).await.ok();
+        if parked.is_some() && tcp_observe(port, &ccfg).await.is_err() {
+            parked = None;
+        }
+
         // ---- the history
         let mut machinery = None;
         let mut cur = "A";
@@ -1346,6 +1354,28 @@ async fn run_sig_case(pki: &Pki, c: &SigCase, sink: &Sink<'_>, counters: &Counte
                 }
             }
             cur = expected;
+        }
+
+        // ---- the handshake on the parked connection starts now
+        if let (Some(tcp), true, true) = (parked.take(), ok, machinery.is_none()) {
+            let fut = async {
+                let s = tokio_rustls::TlsConnector::from(ccfg.clone()).connect(ServerName::try_from("localhost").expect("name"), tcp).await.map_err(|e| format!("TLS handshake: {e}"))?;
+                s.get_ref().1.peer_certificates().and_then(|c| c.first().map(|x| x.to_vec())).ok_or_else(|| "no peer certificate".to_string())
+            };
+            let o: Result<Vec<u8>, String> = tokio::time::timeout(Duration::from_secs(3), fut).await.unwrap_or_else(|_| Err("no handshake within 3 s".into()));
+            counters.evals.fetch_add(1, Ordering::Relaxed);
+            let seen = match &o {
+                Ok(der) => label(der).to_string(),
+                Err(e) => format!("no-connection ({e})"),
+            };
+            facts.push(("parked.sees".into(), json!(seen)));
+            if seen != cur {
+                sink.viol(
+                    "sigreload.later-handshake-on-earlier-connection-sees-replaced-identity".into(),
+                    format!("running server_main, history {:?}: new connections are shown identity {cur}, but a TLS handshake STARTED after that, on a TCP connection the server had accepted before the first SIGUSR1 (and that had been silent since), got {}; client CA {}", c.history, match &o { Ok(_) => format!("identity {seen}"), Err(_) => seen.clone() }, if c.client_ca { "set" } else { "none" }),
+                    replay.clone(),
+                );
+            }
         }
 
         // ---- the connection made before the first reload is still served
@@ -1728,7 +1758,7 @@ pub fn run(args: &Args) -> Report {
     }
     let thorough = args.thorough();
     let algs: Vec<&str> = if thorough { ALGS.to_vec() } else { vec!["p256"] };
-    rep.rule = "complete product: key algorithm x server certificate {trusted-CA leaf, other-CA leaf, self-signed, expired trusted-CA leaf} x (certificate name, requested name) x skip-verify x roots given to the client {trusted CA, other CA, none/system} x client certificate {none, client-CA, other-CA, self-signed} x server client-CA {none, set} x server-config constructor; plus harness-client probes (TLS1.2/1.3) of every server configuration, all reload histories A->B (identities, client-CA before/after, reload method), a client-CA file without a usable certificate {empty, key only, not PEM, truncated PEM} at start-up (every constructor) and at reload (every method): refusing is fine, admitting a client without a certificate under a CA is not, and the real client main loop over loopback TCP for every (--hostname, --tls-server-name, certificate name, skip-verify) combination; reload histories through SIGUSR1 on a running server_main (loopback TCP, one after the other): starting from identity A, each step rewrites the live --tls-cert/--tls-key files as one of {good-B, good-A, bad-key = key file truncated, bad-cert = certificate file not PEM} and raises SIGUSR1, then a harness client that accepts any certificate opens a new connection: it must be shown the last well-formed identity written so far (a new identity within 3 s; an unchanged one is looked at once after 300 ms), and the connection made before the first signal must still get an HTTP response at the end; quick tier: every history of length 1..=2 and, of length 3, those whose first step is bad-key/bad-cert and whose last step is good-A/good-B, plus [good-B, bad-key, good-A]; thorough tier: every history of length 1..=4, and every history of length 1..=2 again with a client CA configured and for every further key algorithm; a case is distinct when its configuration tuple is distinct".into();
+    rep.rule = "complete product: key algorithm x server certificate {trusted-CA leaf, other-CA leaf, self-signed, expired trusted-CA leaf} x (certificate name, requested name) x skip-verify x roots given to the client {trusted CA, other CA, none/system} x client certificate {none, client-CA, other-CA, self-signed} x server client-CA {none, set} x server-config constructor; plus harness-client probes (TLS1.2/1.3) of every server configuration, all reload histories A->B (identities, client-CA before/after, reload method), a client-CA file without a usable certificate {empty, key only, not PEM, truncated PEM} at start-up (every constructor) and at reload (every method): refusing is fine, admitting a client without a certificate under a CA is not, and the real client main loop over loopback TCP for every (--hostname, --tls-server-name, certificate name, skip-verify) combination; reload histories through SIGUSR1 on a running server_main (loopback TCP, one after the other): starting from identity A, each step rewrites the live --tls-cert/--tls-key files as one of {good-B, good-A, bad-key = key file truncated, bad-cert = certificate file not PEM} and raises SIGUSR1, then a harness client that accepts any certificate opens a new connection: it must be shown the last well-formed identity written so far (a new identity within 3 s; an unchanged one is looked at once after 300 ms), the connection made before the first signal must still get an HTTP response at the end, and a TLS handshake that only STARTS at the end, on a TCP connection accepted before the first signal and silent since, must be shown the identity then in force; quick tier: every history of length 1..=2 and, of length 3, those whose first step is bad-key/bad-cert and whose last step is good-A/good-B, plus [good-B, bad-key, good-A]; thorough tier: every history of length 1..=4, and every history of length 1..=2 again with a client CA configured and for every further key algorithm; a case is distinct when its configuration tuple is distinct".into();
 
     let t0 = std::time::Instant::now();
     let pkis: Vec<(String, Pki)> = algs.iter().map(|a| ((*a).to_string(), Pki::new(a))).collect();
